@@ -6,7 +6,7 @@ EXPLANATION = ('cbmc: (1) index exactness of every (de)interleaver of data-io.c 
                'channel\'s frames, once, in order, and the caller\'s output position (j, c) carries engine c\'s j-th frame, for the four '
                'layout combinations (interleaved/split on either side) and every datatype pair class, num_threads 0 and 1; every channel '
                'draws the same count; (3) soxr_create gives every channel its own engine object over one shared block.')
-ASSUMPTIONS = ['OpenMP regions are executed sequentially by cbmc: the thread-interleaving part (shared clip counter and dither seed under '
+ASSUMPTIONS = ['the _OPENMP copies of the per-channel loops are analysed (obligations *_omp) in program order only: the thread-interleaving part (shared clip counter and dither seed under '
                '"omp parallel for") is NOT decided by this check - see DESIGN.md section 9 (C06)',
                'engines are isolated per channel object by construction of the abstract engine; the real kernels\' write footprint is the L3 obligations\' subject']
 
@@ -20,6 +20,10 @@ def obligations(tier):
         for op in (0, 2):
             for kind in ((2,) if tier == 'quick' else (2, 3)):
                 obls.append(api_step(op, it, ot, kind, 2))
+    # the OpenMP build's copies of the per-channel loops (soxr_process both-split path, soxr_output_no_callback): same assertions, program-order schedule
+    for (it, ot) in [(4, 4), (5, 7), (0, 0), (6, 1)] if tier == 'quick' else [(4, 4), (5, 7), (0, 0), (6, 1), (7, 4), (4, 6), (3, 5), (1, 2)]:
+        for op in (0, 2):
+            obls.append(api_step(op, it, ot, 2, 2, omp=1))
     obls.append(create_obl(0, 2, 2))
     for dbl in (0, 1):
         obls.append(_c11.conv(dbl, 2, 2, 17, 16, c=1))
